@@ -5,7 +5,10 @@
 //! Every lifecycle callback is logged with its arguments.
 //!
 //! ops:  new <client|hosted> <map|value> <ews> <tou> | linked | synced | unlinked | upd k v | rem k | clr |
-//!       take n | drop n | set v | wupd k v | wrem k | wclr | wset v | bad | eof | reconnect
+//!       take n | drop n | set v | wupd k v | wrem k | wclr | wset v | bad | eof | reconnect |
+//!       drop-handle (the write handle — client: the `mpsc::Sender`, hosted: the `*DownlinkHandle` — is dropped: the
+//!       client task falls back to its `Mode::Read` loop) | close-out (client: the reader of the task's output channel is
+//!       dropped, so writes fail) | stop (hosted: `handle.stop()`)
 //! out:  callbacks joined by " | " (`-` when nothing happened), `end ok|failed|synced-with-no-value|bad-frame`
 //!       appended when the task/channel finished, `gone` once it has finished, `panic`.
 use std::cell::RefCell;
@@ -128,6 +131,9 @@ enum Parsed {
     Write(Write),
     Eof,
     Reconnect,
+    DropHandle,
+    CloseOut,
+    Stop,
     Invalid,
 }
 
@@ -142,6 +148,9 @@ fn parse_op(op: &str, is_map: bool) -> Parsed {
         ["bad"] => Parsed::Note(Note::Bad),
         ["eof"] => Parsed::Eof,
         ["reconnect"] => Parsed::Reconnect,
+        ["drop-handle"] => Parsed::DropHandle,
+        ["close-out"] => Parsed::CloseOut,
+        ["stop"] => Parsed::Stop,
         ["upd", k, v] if is_map => match (int(k), int(v)) {
             (Some(k), Some(v)) => Parsed::Note(Note::Map(MapMessage::Update { key: k, value: v })),
             _ => Parsed::Invalid,
@@ -172,12 +181,15 @@ enum ClientWrites {
 struct Client {
     is_map: bool,
     input: Option<FramedWrite<ByteWriter, DownlinkNotificationEncoder>>,
-    writes: ClientWrites,
+    /// `None` once the handle has been dropped
+    writes: Option<ClientWrites>,
+    /// the task holding the reader of the downlink's output channel
+    out: JoinHandle<()>,
     task: Option<JoinHandle<Result<(), DownlinkTaskError>>>,
     log: Log,
 }
 
-fn drain(mut rx: ByteReader) {
+fn drain(mut rx: ByteReader) -> JoinHandle<()> {
     tokio::spawn(async move {
         let mut buf = [0u8; 1024];
         while let Ok(n) = rx.read(&mut buf).await {
@@ -185,7 +197,7 @@ fn drain(mut rx: ByteReader) {
                 break;
             }
         }
-    });
+    })
 }
 
 async fn settle() {
@@ -198,7 +210,7 @@ impl Client {
         let log: Log = Default::default();
         let (in_tx, in_rx) = byte_channel(BUF);
         let (out_tx, out_rx) = byte_channel(BUF);
-        drain(out_rx);
+        let out = drain(out_rx);
         let config = DownlinkConfig { events_when_not_synced: ews, terminate_on_unlinked: tou, buffer_size: BUF };
         let addr = Address::new(None, Text::new("/node"), Text::new("lane"));
         let (l1, l2, l3, l4, l5, l6) = (log.clone(), log.clone(), log.clone(), log.clone(), log.clone(), log.clone());
@@ -234,7 +246,8 @@ impl Client {
         Client {
             is_map,
             input: Some(FramedWrite::new(in_tx, DownlinkNotificationEncoder)),
-            writes,
+            writes: Some(writes),
+            out,
             task: Some(task),
             log,
         }
@@ -264,7 +277,7 @@ impl Client {
 
     async fn exec(&mut self, op: &str) -> String {
         let parsed = parse_op(op, self.is_map);
-        if matches!(parsed, Parsed::Invalid | Parsed::Reconnect) {
+        if matches!(parsed, Parsed::Invalid | Parsed::Reconnect | Parsed::Stop) {
             return "bad-op".into();
         }
         if self.task.is_none() {
@@ -279,21 +292,26 @@ impl Client {
             Parsed::Eof => {
                 self.input = None;
             }
-            Parsed::Write(w) => match (&self.writes, w) {
+            // the handle is gone: the write cannot happen
+            Parsed::Write(_) if self.writes.is_none() => {}
+            // `try_send`: a task in `Mode::Read` never empties the channel
+            Parsed::Write(w) => match (self.writes.as_ref().unwrap(), w) {
                 (ClientWrites::Map(tx), Write::Upd(k, v)) => {
-                    let _ = tx.send(MapOperation::Update { key: k, value: v }).await;
+                    let _ = tx.try_send(MapOperation::Update { key: k, value: v });
                 }
                 (ClientWrites::Map(tx), Write::Rem(k)) => {
-                    let _ = tx.send(MapOperation::Remove { key: k }).await;
+                    let _ = tx.try_send(MapOperation::Remove { key: k });
                 }
                 (ClientWrites::Map(tx), Write::Clr) => {
-                    let _ = tx.send(MapOperation::Clear).await;
+                    let _ = tx.try_send(MapOperation::Clear);
                 }
                 (ClientWrites::Val(tx), Write::Set(v)) => {
-                    let _ = tx.send(ValueDownlinkSet { to: v }).await;
+                    let _ = tx.try_send(ValueDownlinkSet { to: v });
                 }
                 _ => return "bad-op".into(),
             },
+            Parsed::DropHandle => self.writes = None,
+            Parsed::CloseOut => self.out.abort(),
             _ => unreachable!(),
         }
         self.finish().await
@@ -441,7 +459,8 @@ struct Hosted {
     is_map: bool,
     chan: BoxDownlinkChannel<FakeAgent>,
     input: Option<FramedWrite<ByteWriter, DownlinkNotificationEncoder>>,
-    writes: HostedWrites,
+    /// `None` once the handle has been dropped
+    writes: Option<HostedWrites>,
     log: Log,
     ended: bool,
 }
@@ -470,7 +489,7 @@ impl Hosted {
             is_map,
             chan,
             input: Some(FramedWrite::new(in_tx, DownlinkNotificationEncoder)),
-            writes,
+            writes: Some(writes),
             log,
             ended: false,
         }
@@ -518,7 +537,7 @@ impl Hosted {
     async fn exec(&mut self, op: &str) -> String {
         let parsed = parse_op(op, self.is_map);
         match parsed {
-            Parsed::Invalid => return "bad-op".into(),
+            Parsed::Invalid | Parsed::CloseOut => return "bad-op".into(),
             Parsed::Reconnect => {
                 if !self.ended {
                     return "bad-op".into();
@@ -546,7 +565,14 @@ impl Hosted {
                 }
             }
             Parsed::Eof => self.input = None,
-            Parsed::Write(w) => match (&mut self.writes, w) {
+            Parsed::DropHandle => self.writes = None,
+            Parsed::Stop => match self.writes.as_mut() {
+                Some(HostedWrites::Map(h)) => h.stop(),
+                Some(HostedWrites::Val(h)) => h.stop(),
+                None => {} // no handle left to call it on
+            },
+            Parsed::Write(_) if self.writes.is_none() => {}
+            Parsed::Write(w) => match (self.writes.as_mut().unwrap(), w) {
                 (HostedWrites::Map(h), Write::Upd(k, v)) => {
                     let _ = h.update(k, v);
                 }
@@ -752,8 +778,30 @@ fn gen_case(rng: &mut Rng, imp: &str) -> Vec<String> {
             }
         }
     }
+    // the handle side: the write handle dropped at any point of the script (before `linked`, between any two ops, at
+    // the end); for the client task everything after it runs in the `Mode::Read` loop
+    if rng.chance(3, 10) {
+        let at = rng.below(ops.len() as u64 + 1) as usize;
+        ops.insert(at, "drop-handle".into());
+    }
+    // client: the output channel closed, then local writes (the value task switches to `Mode::Read` when a write fails)
+    if rng.chance(1, 12) {
+        let at = rng.below(ops.len() as u64 + 1) as usize;
+        ops.insert(at, "close-out".into());
+        for _ in 0..rng.range(2, 3) {
+            let p = at + 1 + rng.below((ops.len() - at) as u64) as usize;
+            ops.insert(p, local_write(rng, is_map));
+        }
+    }
+    // hosted: `handle.stop()`
+    if rng.chance(1, 15) {
+        let at = rng.below(ops.len() as u64 + 1) as usize;
+        ops.insert(at, "stop".into());
+    }
     if imp == "client" {
-        ops.retain(|o| o != "reconnect");
+        ops.retain(|o| o != "reconnect" && o != "stop");
+    } else {
+        ops.retain(|o| o != "close-out");
     }
     let mut all = vec![format!(
         "new {} {} {} {}",
@@ -766,19 +814,17 @@ fn gen_case(rng: &mut Rng, imp: &str) -> Vec<String> {
     all
 }
 
-/// All sequences up to `depth` over a small alphabet, for the four settings (map downlinks).
-async fn exhaustive(t: &mut Trace, imp: &str, depth: usize) {
-    let alphabet = ["linked", "synced", "unlinked", "upd 1 10", "upd 2 20", "rem 1", "clr", "take 1", "drop 1"];
+/// All sequences of length `depth` over `alphabet`, for the four settings.
+async fn enumerate(t: &mut Trace, imp: &str, kind: &str, alphabet: &[&str], depth: usize, count: &mut u64) {
     let k = alphabet.len();
-    let mut count = 0u64;
     for cfg in 0..4u8 {
         let mut idx = vec![0usize; depth];
         'outer: loop {
-            let mut ops = vec![format!("new {} map {} {}", imp, cfg & 1, (cfg >> 1) & 1)];
+            let mut ops = vec![format!("new {} {} {} {}", imp, kind, cfg & 1, (cfg >> 1) & 1)];
             ops.extend(idx.iter().map(|&j| alphabet[j].to_string()));
             t.case(format!("exh {} #{}", imp, count));
             run_case(t, &ops).await;
-            count += 1;
+            *count += 1;
             let mut p = depth;
             loop {
                 if p == 0 {
@@ -793,6 +839,18 @@ async fn exhaustive(t: &mut Trace, imp: &str, depth: usize) {
             }
         }
     }
+}
+
+/// All sequences up to `depth` over a small alphabet, for the four settings: map downlinks (notifications only), then
+/// value downlinks and map downlinks with the handle side (`drop-handle`, a local write; one op shorter for maps).
+async fn exhaustive(t: &mut Trace, imp: &str, depth: usize) {
+    let mut count = 0u64;
+    let map = ["linked", "synced", "unlinked", "upd 1 10", "upd 2 20", "rem 1", "clr", "take 1", "drop 1"];
+    enumerate(t, imp, "map", &map, depth, &mut count).await;
+    let value = ["linked", "synced", "unlinked", "set 1", "set 2", "drop-handle", "wset 3"];
+    enumerate(t, imp, "value", &value, depth, &mut count).await;
+    let map_io = ["linked", "synced", "unlinked", "upd 1 10", "rem 1", "clr", "drop-handle", "wupd 2 20"];
+    enumerate(t, imp, "map", &map_io, depth - 1, &mut count).await;
 }
 
 fn main() {
